@@ -498,7 +498,9 @@ func (proj *Project) loadPackage(wg *sync.WaitGroup, path string) error {
 		case e.Name() == "BUILD.dawn":
 			wg.Add(1)
 			go func() {
+				verifPoint("loader.thread.begin", path)
 				proj.loadModule(nil, &label.Label{Kind: "module", Package: path, Name: "BUILD.dawn"})
+				verifPoint("loader.thread.end", path)
 				wg.Done()
 			}()
 		}
@@ -508,8 +510,10 @@ func (proj *Project) loadPackage(wg *sync.WaitGroup, path string) error {
 }
 
 func (proj *Project) loadModule(waiter *module, label *label.Label) (starlark.StringDict, error) {
+	verifPoint("loader.call", label)
 	proj.m.Lock()
 	if m, ok := proj.modules[label.String()]; ok {
+		verifPoint("loader.found", m)
 		proj.m.Unlock()
 
 		if waiter != nil {
@@ -523,6 +527,7 @@ func (proj *Project) loadModule(waiter *module, label *label.Label) (starlark.St
 	m := &module{label: label, out: newLineWriter(label, proj.events)}
 	m.cond = sync.NewCond(&m.m)
 	proj.modules[label.String()] = m
+	verifPoint("loader.new", m)
 	proj.m.Unlock()
 
 	if waiter != nil {
